@@ -13,6 +13,9 @@
  *                                    (witness byte)
  *   C19.frag_table.frame             nothing of the original changed (header,
  *                                    array descriptor, entry bytes)
+ *   C19.frag_table.answers_equal     sqfs_frag_table_get_size / _lookup give
+ *                                    the same answer on copy and original for
+ *                                    every index (symbolic)
  *   C19.frag_table.independent       a write through the copy is not seen by
  *                                    the original and vice versa
  *   C19.frag_table.release.*         drop both in either order: hooks
@@ -30,4 +33,19 @@
 #define TBL_DESTROY frag_table_destroy
 #define TBL_COPY frag_table_copy
 #define ESZ sizeof(sqfs_fragment_t)
+static bool frag_answers_eq(sqfs_frag_table_t *a, sqfs_frag_table_t *b, sqfs_u32 idx)
+{
+	sqfs_fragment_t x, y;
+	int ra, rb;
+
+	if (sqfs_frag_table_get_size(a) != sqfs_frag_table_get_size(b))
+		return false;
+	ra = sqfs_frag_table_lookup(a, idx, &x);
+	rb = sqfs_frag_table_lookup(b, idx, &y);
+	if (ra != rb)
+		return false;
+	return ra != 0 || (x.start_offset == y.start_offset && x.size == y.size &&
+			   x.pad0 == y.pad0);
+}
+#define TBL_ANSWERS_EQ(o, c, i) frag_answers_eq(o, c, i)
 #include "array_table.inc.h"
